@@ -46,8 +46,19 @@ pub struct CoseKeySet(pub Vec<CoseKey>);
 
 impl crate::CborSerializable for CoseKeySet {}
 
-impl AsCborValue for CoseKeySet {
-    fn from_cbor_value(value: Value) -> Result<Self> {
+impl AsCborValue for CoseKeySet {«
+    // COSE_KeySet = [+ COSE_Key]: accepted iff an array whose elements are all acceptable keys, yielding them in order
+    open spec fn dec_rel(value: Value, r: Result<Self>) -> bool {
+        (r is Ok <==> (value is Array && forall |j: int| 0 <= j < arr_of(value).len() ==> key_value_ok(#[trigger] arr_of(value)[j])))
+        && (r matches Ok(ks) ==> (ks.0@.len() == arr_of(value).len()
+            && forall |j: int| 0 <= j < ks.0@.len() ==> <CoseKey as AsCborValue>::dec_rel(#[trigger] arr_of(value)[j], Ok::<CoseKey, CoseError>(ks.0@[j]))))
+    }
+    open spec fn enc_rel(self, r: Result<Value>) -> bool {
+        (r matches Ok(v) ==> (v is Array && crate::util::iter_enc_ok::<Vec<CoseKey>>(self.0, arr_of(v))))
+        && (r matches Err(e) ==> crate::util::iter_enc_err::<Vec<CoseKey>>(self.0, e))
+    }»
+    fn from_cbor_value(value: Value) -> Result<Self> {«
+        broadcast use axiom_question_mark_uses_from;»
         Ok(Self(
             value.try_as_array_then_convert(CoseKey::from_cbor_value)?,
         ))
@@ -124,6 +135,7 @@ pub open spec fn keyops_ok(v: Value) -> bool {
     && (forall |j: int| 0 <= j < a@.len() ==> (#[trigger] reg_of::<iana::KeyOperation>(a@[j])) is Some)
     && (forall |j: int, k: int| 0 <= j < k < a@.len() ==> #[trigger] reg_of::<iana::KeyOperation>(a@[j]) != #[trigger] reg_of::<iana::KeyOperation>(a@[k]))
 }
+pub open spec fn key_value_ok(v: Value) -> bool { v is Map && key_wf(map_of(v)) }
 pub open spec fn key_pair_ok(k: Value, v: Value) -> bool {
     label_of(k) matches Some(l) && (
         if l == Label::Int(1) { reg_of::<iana::KeyType>(v) is Some }
